@@ -514,10 +514,14 @@ func (ob *Obligation) queryWith(prelude string, gax []string, lean bool) string 
 	for _, a := range gax {
 		sb.WriteString("(assert " + a + ")\n")
 	}
+	sb.WriteString(preludeEndMarker + "\n")
 	for k, f := range c.facts[:ob.NFact] {
 		// facts established in a block from which the obligation's block cannot be reached are irrelevant
 		// on every path to the obligation (their guard is false there); dropping assumptions is always sound
 		if ob.Blk != nil && c.fblks[k] != nil && !c.blockReaches(c.fblks[k], ob.Blk) {
+			continue
+		}
+		if ob.PathTail != nil && c.fblks[k] != nil && !ob.PathBlocks[c.fblks[k]] && !c.blockReaches(c.fblks[k], ob.PathTail) {
 			continue
 		}
 		if len(ob.Needs) > 0 && c.ftags[k] != "" {
